@@ -32,7 +32,9 @@ def run_big(spec, acc, ctx):
                   ("DP17.Pi", {"param_L": rng.choice([1, 2, 4])}, [2048, 1000, 513, 64, 7, 1, 1]),
                   ("CT14.Pi", {}, [1024, 1023, 700, 31, 1]), ("ANSS16.Scheme3", {}, [2049, 1024, 255, 16, 3]),
                   ("CJJ14.PiPtr", {}, [64 * 64 + 1, 4096, 63]), ("CJJ14.PiPack", {}, [64 * 40 + 1, 64, 65]),
-                  ("CJJ14.PiBas", {"param_lambda": 16, "prf_f_output_length": 16}, [3000, 1])]
+                  ("CJJ14.PiBas", {"param_lambda": 16, "prf_f_output_length": 16}, [3000, 1]),
+                  # a posting list longer than 2^16: the per-posting counter needs a third byte
+                  ("CJJ14.PiBas", {}, [65600, 2]), ("CJJ14.PiPack", {"param_B": 1}, [65540, 1])]
     for scheme, over, lens in plans:
         if ctx.out_of_time():
             break
